@@ -159,6 +159,8 @@ struct State {
     effect_seq: u64,
     served: u64,
     late_responses: bool,
+    /// every read's response (also a failure's) is delivered as a separate schedulable event
+    late_all_reads: bool,
     /// free-running fault plan: (global ordinal among *counted* requests, decision)
     fault_plan: BTreeMap<u64, Decision>,
     /// ordinal counter for the fault plan (counts only requests matching `fault_filter_node`)
@@ -202,6 +204,12 @@ impl SimCore {
     /// delivery as a separate schedulable event - a response that arrives late.
     pub fn set_late_responses(&self, on: bool) {
         self.st.lock().late_responses = on;
+    }
+    /// The response of every GET - successful or not, of any object - is delivered as a separate
+    /// schedulable event: the answer was computed when the request was served, but reaches the
+    /// caller later (other requests can take effect in between).
+    pub fn set_late_all_reads(&self, on: bool) {
+        self.st.lock().late_all_reads = on;
     }
 
     pub fn set_scheduled(&self, on: bool) {
@@ -718,7 +726,11 @@ impl ObjectStore for NodeStore {
             Ok((GetResult { payload: GetResultPayload::Stream(stream.boxed()), attributes: entry.attributes, meta, range }, 0))
         })
         .await;
-        if op_is_get && res.is_ok() && location.as_ref().ends_with(".json") && self.core.st.lock().late_responses {
+        let late = {
+            let st = self.core.st.lock();
+            st.late_all_reads || (res.is_ok() && location.as_ref().ends_with(".json") && st.late_responses)
+        };
+        if op_is_get && late {
             let (id, _d) = self.core.gate(ReqDesc { node: self.node, op: OpKind::Resp, path: location.to_string(), detail: "response".into() }).await;
             self.core.finish(id, "ok", 0);
         }
